@@ -76,10 +76,38 @@ def lan_streams(ctx, rng, thorough):
                 through_lan(ctx, rng, version, frame, pkt[:k], f"first {k} bytes")
 
 
+def authentic_frames(ctx, rng, thorough):
+    """an AUTHENTIC packet decodes to exactly the frame the device sent - also when the frame ends in bytes that look like
+    its own PKCS7 padding (last byte(s) equal to 16 - len % 16), in 0x10 bytes, in zeros, or is all padding-like"""
+    import msmart.lan as lan
+    for n in (range(1, 50) if not thorough else range(1, 130)):
+        pad = 16 - n % 16
+        tails = [bytes([pad]), bytes([pad]) * min(n, 3), bytes([pad]) * min(n, pad), b"\x10", b"\x00", b"\x01", bytes([pad - 1 or 16]), bytes([(pad % 16) + 1])]
+        for t in tails:
+            frame = (rb_(rng, n) + t)[-n:] if len(t) <= n else t[:n]
+            frame = frame[:n - len(t)] + t if len(t) <= n else frame
+            pkt = bytes.fromhex(ctx.driver.ask(f"spec_v2_encode id={rng.randrange(2 ** 48)} ts={hx(rb_(rng, 8))} filler={hx(bytes(12))} frame={hx(frame)}")) \
+                if ctx.driver else lan._Packet.encode(1, frame)
+            out = lanimpl.v2_decode(pkt)
+            inp = {"frame": hx(frame), "packet": hx(pkt), "note": "authentic, frame ends in padding-like bytes"}
+            if out != hx(frame):
+                ctx.violate("authentic", inp, out, hx(frame), "an authentic packet was decoded to a frame different from the one sent")
+            if ctx.driver:
+                m = ctx.driver.ask(f"v2_decode data={hx(pkt)}")
+                if m != out:
+                    ctx.disagree("authentic", inp, out, m)
+            ctx.case("authentic", key=hx(pkt), sample={"frame_len": n, "tail": hx(t)})
+
+
+def rb_(rng, n):
+    return bytes(rng.randrange(256) for _ in range(n))
+
+
 def run(ctx):
     rng = ctx.rng
     thorough = ctx.tier == "thorough"
     lan_streams(ctx, rng, thorough)
+    authentic_frames(ctx, rng, thorough)
     lens = [0, 1, 15, 16, 17, 31, 32, 33, 100, 255]
     lines, meta = [], []
     for n in lens:
